@@ -488,3 +488,24 @@ pub fn length_cluster(k: usize) -> Vec<String> {
     }
     out
 }
+
+/// Every string of at most `k` tokens over digits and separators only
+/// (`0 1 2 7 . _`): doubled, leading and trailing separators, empty
+/// components, zero components - the versions a "digits and dots" fast path
+/// takes for itself.
+pub fn digits_and_separators(k: usize) -> Vec<String> {
+    const T: [&str; 6] = ["0", "1", "2", "7", ".", "_"];
+    let mut out = vec![];
+    let mut layer = vec![String::new()];
+    for _ in 0..k {
+        let mut next = vec![];
+        for s in &layer {
+            for t in T {
+                next.push(format!("{s}{t}"));
+            }
+        }
+        out.extend(next.iter().cloned());
+        layer = next;
+    }
+    out
+}
